@@ -1,10 +1,13 @@
 package c12
 
 import (
+	"encoding/json"
 	"fmt"
+	"os"
 	"sort"
 	"strings"
 	"testing"
+	"time"
 
 	"github.com/segmentio/kafka-go/protocol"
 	"pgregory.net/rapid"
@@ -285,10 +288,11 @@ func genChangeOf(t *rapid.T, m *model, op, label string) ([]step, bool) {
 		}
 		n := rapid.IntRange(1, 4).Draw(t, label+"n")
 		name := m.newTopic(n)
-		if !m.dirty {
+		validate := rapid.IntRange(0, 3).Draw(t, label+"validateOnly") == 0
+		if !m.dirty && !validate {
 			m.addTopic(name, n) // with a stale controller the creation may be refused; later steps then simply fail in the library
 		}
-		out = append(out, step{Op: "create", Names: []string{name}, N: n})
+		out = append(out, step{Op: "create", Names: []string{name}, N: n, Validate: validate})
 		return out, true
 	case "delete":
 		if len(m.order) < 2 {
@@ -626,7 +630,12 @@ func TestRouting(t *testing.T) {
 			stratum = (caseNo / 2) % 6
 		}
 		c := genCase(t, stratum)
+		t0 := time.Now()
 		out := run(t, c)
+		if d := time.Since(t0); d > 5*time.Second && os.Getenv("C12_SLOW") != "" {
+			b, _ := json.Marshal(c.Steps)
+			fmt.Fprintf(os.Stderr, "SLOW %v %s\n", d, b)
+		}
 		if out == nil {
 			return
 		}
